@@ -247,3 +247,62 @@ func TestCrashDuringRecoveryKeepsSyncedWrites(t *testing.T) {
 		t.Fatalf("%d crash points of the recovery lose acknowledged, synced writes", bad)
 	}
 }
+
+// obligation leveldb.(*DB).recoverJournal:assert(C04:highest-replayed-journal-number-is-retired)
+// Crash at every instant of a run that rotates the journal; recover; write with Sync; crash again; reopen: the
+// write acknowledged after the recovery is there (the recovery must not hand out a file number that one of the
+// journals it replays already has).
+func TestSyncedWriteAfterRecoverySurvivesCrash(t *testing.T) {
+	o := &opt.Options{DisableBlockCache: true, WriteBuffer: 32 << 10}
+	st1 := newCrashStorage(t, nil)
+	db, err := leveldb.Open(st1, o)
+	must(t, err)
+	val := make([]byte, 1024)
+	// a discarded transaction that spilled two tables: a file number is consumed without reaching the manifest
+	tr, err := db.OpenTransaction()
+	must(t, err)
+	for i := 0; i < 80; i++ {
+		must(t, tr.Put([]byte{'t', byte(i)}, val, nil))
+	}
+	tr.Discard()
+	// an unsynced write, then a journal rotation (opening a transaction rotates a non-empty memdb)
+	must(t, db.Put([]byte("unsynced"), []byte("v"), nil))
+	tr, err = db.OpenTransaction()
+	must(t, err)
+	tr.Discard()
+	n1 := st1.n()
+	db.Close()
+	bad := 0
+	for n := 0; n <= n1; n++ {
+		st2 := newCrashStorage(t, st1.image(n))
+		db, err := leveldb.Open(st2, o)
+		if err != nil {
+			continue // images before the DB was fully created cannot be opened: not this scenario
+		}
+		if err := db.Put([]byte("after"), []byte("recovery"), &opt.WriteOptions{Sync: true}); err != nil {
+			db.Close()
+			continue
+		}
+		img := st2.image(st2.n()) // the machine dies right after the acknowledged write
+		db.Close()
+		st3 := newCrashStorage(t, img)
+		db, err = leveldb.Open(st3, o)
+		if err != nil {
+			t.Errorf("crash point %d: second reopen failed: %v", n, err)
+			bad++
+			continue
+		}
+		if v, err := db.Get([]byte("after"), nil); err != nil || string(v) != "recovery" {
+			last := "(start)"
+			if n > 0 {
+				last = st1.ops[n-1].String()
+			}
+			t.Errorf("crash after op #%d %s: the write acknowledged with Sync after the recovery is lost: %q, %v", n, last, v, err)
+			bad++
+		}
+		db.Close()
+	}
+	if bad > 0 {
+		t.Fatalf("%d crash points lose a synced write made after recovery", bad)
+	}
+}
